@@ -26,6 +26,7 @@ RULE = ("valid base objects (must validate) and the complete enumeration of (slo
 ASSUMPTIONS = [
     "the frozen specification model (stixmon/spec) is a correct subset of the STIX rules; rules it does not state (language tags, MIME types, CPE syntax, relationship_type charset, 54-bit integer range ...) are not judged",
     "STIX patterns are judged by the third-party stix2patterns validator, which is not part of the repository",
+    "a custom_properties keyword given to a constructor is the caller's documented request for custom content; as a key of parsed or nested content it is content",
 ]
 VERSIONS = ["2.0", "2.1"]
 
@@ -243,6 +244,9 @@ def wl_bases(ctx, rng, i):
         parts = label.split("|")
         generic = len(parts) > 2 and parts[2].startswith("kind:")
         routes = ["parse-text"] if (generic and ctx.tier == "quick") else all_routes
+        if "constructor-argument:" in label and where == "":
+            # as a keyword argument of the constructor itself, custom_properties is the documented way to ask for custom content
+            routes = [r for r in routes if r != "constructor"]
         judge(ctx, ver, t, oo, label, where, routes, history=(not generic and n % 2 == 0))
         ctx.nontrivial(ver, t, label)
         ctx.see("fault kinds", parts[-1] if not generic else "wrong-json-kind")
